@@ -57,6 +57,9 @@ def gen_graph(rng):
     rels = [Relationship(name="customers", type="many_to_one", foreign_key=opt("customer_id", 0.7), primary_key=opt("id", 0.3))]
     if rng.random() < 0.4:
         rels.append(Relationship(name="tags", type="many_to_many", through="order_tags", through_foreign_key="order_id", related_foreign_key="tag_id"))
+    diamond = rng.random() < 0.6
+    if diamond:
+        rels.append(Relationship(name="stores", type="many_to_one", foreign_key="store_id"))
     preaggs = []
     for k in range(rng.choice([0, 1, 2])):
         preaggs.append(PreAggregation(name="p%d" % k, measures=rng.sample(["rev", "n"], rng.randint(1, 2)), dimensions=rng.sample(["status", "channel"], rng.randint(0, 2)),
@@ -68,7 +71,15 @@ def gen_graph(rng):
                                   Dimension(name="channel", type="categorical"), Dimension(name="big", type="boolean", sql="amount > 10"), Dimension(name="qty", type="numeric")],
                       segments=[Segment(name="seg", sql="{model}.status = 'a'", public=rng.random() < 0.7)] if rng.random() < 0.7 else [],
                       **(dict(sql="SELECT * FROM orders_t WHERE amount >= 0") if rng.random() < 0.3 else dict(table="orders_t"))))
-    L.add_model(Model(name="customers", table="customers_t", primary_key="id", dimensions=[Dimension(name="region", type="categorical")], metrics=[Metric(name="cnt", agg="count")]))
+    # a DIAMOND: orders -> customers -> regions and orders -> stores -> regions are equally short, and a reference between the two intermediate
+    # models; which path a query takes depends on the order the models and relationships are registered in, so the round trip must keep it
+    crels = [Relationship(name="regions", type="many_to_one", foreign_key="region_id")] + ([Relationship(name="stores", type="many_to_one", foreign_key="home_store_id")] if rng.random() < 0.7 else []) if diamond else []
+    if diamond and rng.random() < 0.5:
+        crels.reverse()
+    L.add_model(Model(name="customers", table="customers_t", primary_key="id", dimensions=[Dimension(name="region", type="categorical")], metrics=[Metric(name="cnt", agg="count")], relationships=crels))
+    if diamond:
+        L.add_model(Model(name="stores", table="stores_t", primary_key="id", dimensions=[Dimension(name="kind", type="categorical")], relationships=[Relationship(name="regions", type="many_to_one", foreign_key="region_id")]))
+        L.add_model(Model(name="regions", table="regions_t", primary_key="id", dimensions=[Dimension(name="name", type="categorical")]))
     L.add_model(Model(name="tags", table="tags_t", primary_key="id", dimensions=[Dimension(name="tag", type="categorical")]))
     L.add_model(Model(name="order_tags", table="order_tags_t", primary_key="id"))
     if rng.random() < 0.7:
@@ -89,7 +100,8 @@ BATTERY = [dict(metrics=["orders.rev", "orders.n"], dimensions=["orders.status"]
            dict(metrics=["orders.cum"], dimensions=["orders.created__day"]), dict(metrics=["orders.mtd"], dimensions=["orders.created__day"]), dict(metrics=["yoy"], dimensions=["orders.created__month"]),
            dict(metrics=["orders.ex"], dimensions=[]), dict(metrics=["g_sum"], dimensions=["orders.status"]), dict(metrics=["g_ratio", "g_der"], dimensions=[]), dict(metrics=["g_cum"], dimensions=["orders.created__day"]),
            dict(metrics=["orders.rev", "orders.n"], dimensions=["orders.status", "orders.created__month"], use_preaggregations=True), dict(metrics=["orders.rev"], dimensions=["tags.tag"]),
-           dict(metrics=["orders.n"], dimensions=["orders.big", "orders.qty"]), dict(metrics=["orders.rev"], dimensions=[])]
+           dict(metrics=["orders.n"], dimensions=["orders.big", "orders.qty"]), dict(metrics=["orders.rev"], dimensions=[]),
+           dict(metrics=["orders.n"], dimensions=["regions.name"]), dict(metrics=["customers.cnt"], dimensions=["regions.name", "stores.kind"])]
 
 
 def projection(L, rf):
@@ -123,6 +135,21 @@ def compile_all(L):
             out.append(L.compile(**q))
         except Exception as e:
             out.append("ERROR %s: %s" % (type(e).__name__, str(e)[:120]))
+    return out
+
+
+def all_paths(L):
+    """the join path the planner picks for EVERY ordered pair of models (hops with their key columns and cardinality), or the error class"""
+    out = {}
+    names = list(L.graph.models)
+    for a in names:
+        for b in names:
+            if a == b:
+                continue
+            try:
+                out[(a, b)] = [(h.from_model, h.to_model, tuple(h.from_columns), tuple(h.to_columns), h.relationship) for h in L.graph.find_relationship_path(a, b)]
+            except Exception as e:
+                out[(a, b)] = type(e).__name__
     return out
 
 
@@ -297,6 +324,14 @@ def run(c):
         sa, sb = compile_all(L), compile_all(L2)
         stats["queries_compiled"] += len(sa)
         sql_diff = [k for k in range(len(sa)) if sa[k] != sb[k]]
+        pa, pb = all_paths(L), all_paths(L2)
+        path_diff = sorted(k for k in pa if pa[k] != pb.get(k))
+        stats["pairs_planned"] = stats.get("pairs_planned", 0) + len(pa)
+        if path_diff and not (dp or sql_diff):
+            k = path_diff[0]
+            c.violation("to_yaml -> from_yaml changes the join path the planner picks between %s and %s (the reloaded layer joins through other models)" % k,
+                        {"kind": "roundtrip", "index": i, "seed": c.seed, "pair": list(k), "path_before": pa[k], "path_after": pb.get(k),
+                         "models_before": list(L.graph.models), "models_after": list(L2.graph.models), "yaml": text[:1500]})
         if dp or sql_diff:
             stats["field_differences"] += bool(dp)
             stats["sql_differences"] += bool(sql_diff)
@@ -338,6 +373,6 @@ def replay(path):
             return 1
         dp = diff_paths(falsy_norm(projection(L, rf)), falsy_norm(projection(L2, rf)))
         print(dp[:10])
-        return 1 if dp or compile_all(L) != compile_all(L2) else 0
+        return 1 if dp or compile_all(L) != compile_all(L2) or all_paths(L) != all_paths(L2) else 0
     print(json.dumps(r, indent=1)[:2000])
     return 1
